@@ -38,8 +38,8 @@ ASSUMPTIONS = [
     "(q, p) marginal because they resample the direction",
 ]
 REQUIRED = {"configs_decided": 30, "paths_enumerated": 20000, "stat_checks": 20000}
-BUDGET_S = {"quick": 240, "thorough": 2400}
-PATH_CAP = {"quick": 60000, "thorough": 600000}
+BUDGET_S = {"quick": 240, "thorough": 1500}
+PATH_CAP = {"quick": 60000, "thorough": 120000}
 BAL_TOL = 1e-9
 
 
